@@ -3,7 +3,11 @@
   seeded_rerun.py [--all-checks] [ids...]      default: every seeded change, designated check (+ the checks that caught it before)"""
 import sys, os, json, shutil, subprocess, tempfile
 VERIF = os.path.dirname(os.path.dirname(os.path.abspath(__file__)))
-ids = [a for a in sys.argv[1:] if not a.startswith('-')] or sorted(os.listdir(os.path.join(VERIF, 'seeded')))
+extra = []
+args = sys.argv[1:]
+if '--extra' in args:
+    i = args.index('--extra'); extra = args[i + 1].split(','); del args[i:i + 2]
+ids = [a for a in args if not a.startswith('-')] or sorted(os.listdir(os.path.join(VERIF, 'seeded')))
 bad = 0
 for sid in ids:
     d = os.path.join(VERIF, 'seeded', sid)
@@ -17,7 +21,7 @@ for sid in ids:
         shutil.copy(os.path.join(d, 'patch.diff'), os.path.join(tmp, 'patch%s.diff' % file_letter))
         shutil.copy(os.path.join(d, 'demo.c'), os.path.join(tmp, 'demo%s.c' % file_letter))
         open(os.path.join(tmp, 'NOTES.md'), 'w').write(meta.get('needs_to_manifest', ''))
-        checks = sorted(set([prop] + meta.get('detected_by', [])))
+        checks = sorted(set([prop] + meta.get('detected_by', []) + extra))
         cmd = [os.path.join(VERIF, 'tools', 'seeded_confirm.py'), prop, file_letter, tmp, '--id', sid] + (['--all'] if '--all-checks' in sys.argv else ['--checks', ','.join([prop] + [c for c in checks if c != prop])])
         r = subprocess.run(cmd, stdout=subprocess.PIPE, stderr=subprocess.STDOUT, text=True)
         line = r.stdout.strip().splitlines()[-1] if r.stdout.strip() else ''
